@@ -1,7 +1,262 @@
-(* Properties/C20.v — C20: all storage engines implement the same key-value contract. *)
+(* Properties/C20.v — C20: all storage engines implement the same key-value contract.
+   Only the property theorems (closed by [exact]) and non-vacuity examples.
+   The engines' own cursors (rocksdb, pebble, radix / btree / skiplist) are tied to the ideal cursor of
+   Eng/Cursor.v by the correspondence check only; everything above the cursor is proved here. *)
 From ZV Require Import Common.Bytes Eng.Consts Eng.Model Eng.Proofs.
-Open Scope N_scope.
+Open Scope Z_scope.
 
-Theorem C20_clear_no_effect : forall d, committed (db_clear d) = committed d.
-Proof. exact db_clear_committed. Qed.
-Print Assumptions C20_clear_no_effect.
+(* ===== (1) the shared range/limit iterator (engine/iterator.go) ===== *)
+(* for every sorted store, every option combination (min/max nil or set, any range type, direction, any
+   offset and count incl. negative ones) and both kinds of engine cursor (clamped to the bounds or not):
+   walking the wrapper yields exactly the declarative answer; it never faults and never runs away *)
+Theorem C20_wrapper_correct : forall (bounded : bool) (m : smap) (o : iter_opts),
+  ksorted m -> db_range_limit false bounded m o = Some (range_query m o).
+Proof. exact wrapper_correct. Qed.
+Print Assumptions C20_wrapper_correct.
+
+Theorem C20_range_iterator_correct : forall (bounded : bool) (m : smap) (o : iter_opts),
+  ksorted m -> db_range false bounded m o = Some (range_query m (no_limit o)).
+Proof. exact range_iterator_correct. Qed.
+Print Assumptions C20_range_iterator_correct.
+
+Theorem C20_wrapper_engine_independent : forall m o,
+  ksorted m -> db_range_limit false true m o = db_range_limit false false m o.
+Proof. exact wrapper_engine_independent. Qed.
+Print Assumptions C20_wrapper_engine_independent.
+
+(* the constructor as it was before fix f53be95 violated the statement (defect E1) ... *)
+Theorem C20_wrapper_legacy_refuted :
+  exists (m : smap) (o : iter_opts), ksorted m /\ db_range_limit true false m o <> Some (range_query m o).
+Proof. exact wrapper_legacy_refuted. Qed.
+Print Assumptions C20_wrapper_legacy_refuted.
+
+(* ... exactly through the fallback: without it (some key <= Max exists) it was correct, and engines that
+   clamp the cursor (pebble, rocksdb) masked it completely *)
+Theorem C20_wrapper_legacy_correct_without_fallback : forall bounded m o,
+  ksorted m ->
+  no_fallback o (get_iterator bounded (o_min o) (o_max o) (o_type o) m) ->
+  db_range_limit true bounded m o = Some (range_query m o).
+Proof. exact wrapper_legacy_correct_without_fallback. Qed.
+Print Assumptions C20_wrapper_legacy_correct_without_fallback.
+
+Theorem C20_wrapper_legacy_correct_bounded : forall m o,
+  ksorted m -> db_range_limit true true m o = Some (range_query m o).
+Proof. exact wrapper_legacy_correct_bounded. Qed.
+Print Assumptions C20_wrapper_legacy_correct_bounded.
+
+(* ===== (2) the ideal cursor ===== *)
+Theorem C20_seek_first_ge : forall t c,
+  ksorted (c_view c) ->
+  match c_cur (c_seek t c) with
+  | Some x => In x (c_view c) /\ bytes_leb t (fst x) = true /\
+              (forall y, In y (c_view c) -> bytes_leb t (fst y) = true -> bytes_leb (fst x) (fst y) = true)
+  | None => forall y, In y (c_view c) -> bytes_leb t (fst y) = false
+  end.
+Proof. exact seek_first_ge. Qed.
+Print Assumptions C20_seek_first_ge.
+
+Theorem C20_seek_for_prev_last_le : forall t c,
+  ksorted (c_view c) ->
+  match c_cur (c_seek_for_prev t c) with
+  | Some x => In x (c_view c) /\ bytes_leb (fst x) t = true /\
+              (forall y, In y (c_view c) -> bytes_leb (fst y) t = true -> bytes_leb (fst y) (fst x) = true)
+  | None => forall y, In y (c_view c) -> bytes_leb (fst y) t = false
+  end.
+Proof. exact seek_for_prev_last_le. Qed.
+Print Assumptions C20_seek_for_prev_last_le.
+
+Theorem C20_prev_next : forall c, c_valid (c_next c) = true -> c_prev (c_next c) = c.
+Proof. exact prev_next. Qed.
+Print Assumptions C20_prev_next.
+
+Theorem C20_next_prev : forall c, c_valid (c_prev c) = true -> c_next (c_prev c) = c.
+Proof. exact next_prev. Qed.
+Print Assumptions C20_next_prev.
+
+(* the exclusive upper bound pebble/rocksdb install for a right-closed range is the closed bound *)
+Theorem C20_upper_bound_successor : forall k mx, bytes_ltb k (mx ++ [0%N]) = bytes_leb k mx.
+Proof. exact bytes_ltb_succ. Qed.
+Print Assumptions C20_upper_bound_successor.
+
+(* ===== (3) sorted-map laws ===== *)
+Theorem C20_find_insert_same : forall k v m, sm_find k (sm_insert k v m) = Some v.
+Proof. exact find_insert_same. Qed.
+Print Assumptions C20_find_insert_same.
+
+Theorem C20_find_insert_other : forall k k2 v m, k2 <> k -> sm_find k2 (sm_insert k v m) = sm_find k2 m.
+Proof. exact find_insert_other. Qed.
+Print Assumptions C20_find_insert_other.
+
+Theorem C20_find_remove_same : forall k m, ksorted m -> sm_find k (sm_remove k m) = None.
+Proof. exact find_remove_same. Qed.
+Print Assumptions C20_find_remove_same.
+
+Theorem C20_find_remove_other : forall k k2 m, k2 <> k -> ksorted m -> sm_find k2 (sm_remove k m) = sm_find k2 m.
+Proof. exact find_remove_other. Qed.
+Print Assumptions C20_find_remove_other.
+
+Theorem C20_insert_sorted : forall k v m, ksorted m -> ksorted (sm_insert k v m).
+Proof. exact insert_sorted. Qed.
+Print Assumptions C20_insert_sorted.
+
+Theorem C20_remove_sorted : forall k m, ksorted m -> ksorted (sm_remove k m).
+Proof. exact remove_sorted. Qed.
+Print Assumptions C20_remove_sorted.
+
+Theorem C20_find_in : forall k v m, ksorted m -> (sm_find k m = Some v <-> In (k, v) m).
+Proof. exact find_in. Qed.
+Print Assumptions C20_find_in.
+
+Theorem C20_range_is_filter : forall lo hi m k v,
+  In (k, v) (sm_range lo hi m) <-> In (k, v) m /\ bytes_leb lo k = true /\ bytes_ltb k hi = true.
+Proof. exact range_in. Qed.
+Print Assumptions C20_range_is_filter.
+
+Theorem C20_range_sorted : forall lo hi m, ksorted m -> ksorted (sm_range lo hi m).
+Proof. exact range_sorted. Qed.
+Print Assumptions C20_range_sorted.
+
+Theorem C20_sorted_map_canonical : forall m1 m2,
+  ksorted m1 -> ksorted m2 -> (forall k, sm_find k m1 = sm_find k m2) -> m1 = m2.
+Proof. exact ksorted_ext. Qed.
+Print Assumptions C20_sorted_map_canonical.
+
+Theorem C20_sortedb_reflects : forall m, sortedb m = true <-> ksorted m.
+Proof. exact sortedb_ksorted. Qed.
+Print Assumptions C20_sortedb_reflects.
+
+(* ===== (4) write batches ===== *)
+(* nothing of an uncommitted batch is visible *)
+Theorem C20_uncommitted_invisible : forall d ops k,
+  db_get (db_adds d ops) k = db_get d k /\ db_exist (db_adds d ops) k = db_exist d k.
+Proof. exact uncommitted_invisible. Qed.
+Print Assumptions C20_uncommitted_invisible.
+
+Theorem C20_uncommitted_invisible_store : forall ops d, committed (db_adds d ops) = committed d.
+Proof. exact db_adds_committed. Qed.
+Print Assumptions C20_uncommitted_invisible_store.
+
+(* a committed batch is visible completely: the store is the fold of its operations, in order *)
+Theorem C20_commit_visible : forall m ops m',
+  apply_ops m ops = Some m' -> db_commit (db_adds (mkdb m []) ops) = (mkdb m' [], true).
+Proof. exact commit_visible. Qed.
+Print Assumptions C20_commit_visible.
+
+Theorem C20_commit_all_or_nothing : forall d,
+  (exists m', apply_ops (committed d) (pending d) = Some m' /\ db_commit d = (mkdb m' [], true)) \/
+  (apply_ops (committed d) (pending d) = None /\ db_commit d = (mkdb (committed d) [], false)).
+Proof. exact commit_all_or_nothing. Qed.
+Print Assumptions C20_commit_all_or_nothing.
+
+(* a cleared batch has no effect *)
+Theorem C20_cleared_no_effect : forall d ops,
+  pending d = [] -> db_commit (db_clear (db_adds d ops)) = (d, true).
+Proof. exact cleared_no_effect. Qed.
+Print Assumptions C20_cleared_no_effect.
+
+Theorem C20_commit_sequential : forall m a b m1 m2,
+  apply_ops m a = Some m1 -> apply_ops m1 b = Some m2 -> apply_ops m (a ++ b) = Some m2.
+Proof. exact commit_sequential. Qed.
+Print Assumptions C20_commit_sequential.
+
+Theorem C20_batch_keeps_sorted : forall ops m m', ksorted m -> apply_ops m ops = Some m' -> ksorted m'.
+Proof. exact apply_ops_sorted. Qed.
+Print Assumptions C20_batch_keeps_sorted.
+
+(* counter merge: addition modulo 2^64, associative and commutative *)
+Theorem C20_add64_is_mod : forall a b, add64 a b = ((a + b) mod 2 ^ 64)%N.
+Proof. exact add64_mod. Qed.
+Print Assumptions C20_add64_is_mod.
+
+Theorem C20_add64_comm : forall a b, add64 a b = add64 b a.
+Proof. exact add64_comm. Qed.
+Print Assumptions C20_add64_comm.
+
+Theorem C20_add64_assoc : forall a b c, add64 (add64 a b) c = add64 a (add64 b c).
+Proof. exact add64_assoc. Qed.
+Print Assumptions C20_add64_assoc.
+
+Theorem C20_counter_roundtrip : forall x, (x < 2 ^ 64)%N -> counter_of (le_encode 8 x) = Some x.
+Proof. exact counter_of_encode. Qed.
+Print Assumptions C20_counter_roundtrip.
+
+Theorem C20_merge_value : forall a b, (a < 2 ^ 64)%N -> (b < 2 ^ 64)%N ->
+  merge_value (Some (le_encode 8 a)) (le_encode 8 b) = Some (le_encode 8 (add64 a b)).
+Proof. exact merge_value_counters. Qed.
+Print Assumptions C20_merge_value.
+
+Theorem C20_merge_merge : forall m k a b,
+  (a < 2 ^ 64)%N -> (b < 2 ^ 64)%N ->
+  (exists x, counter_of (match sm_find k m with Some v => v | None => [] end) = Some x) ->
+  apply_ops m [BMerge k (le_encode 8 a); BMerge k (le_encode 8 b)] =
+  apply_op m (BMerge k (le_encode 8 (add64 a b))).
+Proof. exact merge_merge. Qed.
+Print Assumptions C20_merge_merge.
+
+Theorem C20_merge_commute_same_key : forall m k a b,
+  (a < 2 ^ 64)%N -> (b < 2 ^ 64)%N ->
+  (exists x, counter_of (match sm_find k m with Some v => v | None => [] end) = Some x) ->
+  apply_ops m [BMerge k (le_encode 8 a); BMerge k (le_encode 8 b)] =
+  apply_ops m [BMerge k (le_encode 8 b); BMerge k (le_encode 8 a)].
+Proof. exact merge_commute_same_key. Qed.
+Print Assumptions C20_merge_commute_same_key.
+
+Theorem C20_merge_commute_other_key : forall m k1 k2 v1 v2,
+  ksorted m -> k1 <> k2 ->
+  apply_ops m [BMerge k1 v1; BMerge k2 v2] = apply_ops m [BMerge k2 v2; BMerge k1 v1].
+Proof. exact merge_commute_other_key. Qed.
+Print Assumptions C20_merge_commute_other_key.
+
+(* delete-range removes exactly the keys of [start, end), and equals deleting them one by one *)
+Theorem C20_delete_range_lookup : forall lo hi m k,
+  ksorted m -> sm_find k (sm_remove_range lo hi m) = if in_co lo hi k then None else sm_find k m.
+Proof. exact find_remove_range. Qed.
+Print Assumptions C20_delete_range_lookup.
+
+Theorem C20_delete_range_is_remove_of_range : forall lo hi m,
+  ksorted m ->
+  sm_remove_range lo hi m = fold_left (fun m k' => sm_remove k' m) (map fst (sm_range lo hi m)) m.
+Proof. exact delete_range_is_remove_of_range. Qed.
+Print Assumptions C20_delete_range_is_remove_of_range.
+
+(* ===== (5) whole scripts: batches, commits, clears and reads, from the empty engine ===== *)
+Theorem C20_reachable_sorted : forall bounded ss, ksorted (committed (run_db bounded db_empty ss)).
+Proof. exact reachable_from_empty_sorted. Qed.
+Print Assumptions C20_reachable_sorted.
+
+(* every read of every script is answered as the sorted-map reference answers it (raw cursors with bounds
+   excepted: they are engine specific and not part of the contract) *)
+Theorem C20_script_refines_reference : forall bounded ss d,
+  ksorted (committed d) -> forallb step_portable ss = true ->
+  run_script bounded d ss = ref_script d ss.
+Proof. exact script_refines_reference. Qed.
+Print Assumptions C20_script_refines_reference.
+
+Theorem C20_script_engine_independent : forall ss,
+  forallb step_portable ss = true -> run_script true db_empty ss = run_script false db_empty ss.
+Proof. exact script_engine_independent. Qed.
+Print Assumptions C20_script_engine_independent.
+
+(* ---------- non-vacuity ---------- *)
+(* keys "a","b","c": reverse closed [a,c] with offset 1, count 1 yields "b"; the E1 witness yields nothing *)
+Example C20_ex_query :
+  let m := [([97%N], [1%N]); ([98%N], [2%N]); ([99%N], [3%N])] in
+  ksorted m /\
+  db_range_limit false false m (mkopts (Some [97%N]) (Some [99%N]) 0%N 1 1 true) = Some [([98%N], [2%N])] /\
+  db_range_limit false true m (mkopts (Some [97%N]) (Some [99%N]) 0%N 0 (-1) true)
+    = Some [([99%N], [3%N]); ([98%N], [2%N]); ([97%N], [1%N])].
+Proof. split; [apply sortedb_ksorted; reflexivity|vm_compute; auto]. Qed.
+
+Example C20_ex_e1 :
+  db_range_limit false false e1_store e1_opts = Some [] /\
+  db_range_limit true true e1_store e1_opts = Some [] /\
+  db_range_limit true false e1_store e1_opts = Some [([98%N], [1%N])].
+Proof. exact e1_after_fix. Qed.
+
+(* a script: put b, merge counter c twice (2^64-1 then 2: wraps to 1), delete-range [a,b\0), commit, read *)
+Example C20_ex_script :
+  run_script false db_empty
+    [SPut [98%N] [7%N]; SMerge [99%N] (le_encode 8 18446744073709551615); SMerge [99%N] (le_encode 8 2);
+     SGet [98%N]; SDelRange [97%N] [98%N; 0%N]; SCommit; SGet [98%N]; SGet [99%N]]
+  = [RNone; RNone; RNone; RVal None; RNone; RCommit true; RVal None; RVal (Some (le_encode 8 1))].
+Proof. vm_compute. reflexivity. Qed.
